@@ -21,7 +21,7 @@ Accepted fragment
                float / str literals, -<number literal>, tuples, lists, {} ,
                one comparison == != < <= > >= is `is not` in `not in`; not / and / or; + - *;
                a[i], a[lo:hi]; [body for x in e];
-               enumerate zip dict list sorted (positional; or one starred argument), with zip / enumerate only as the
+               enumerate zip dict list sorted range int len (positional; or one starred argument), with zip / enumerate only as the
                iterable of a for loop (or directly inside enumerate there) and d.items() only directly inside
                sorted / list (these lazily evaluated objects are read as immutable sequences);
                np.<dotted name>(positional and keyword arguments as written);
@@ -42,7 +42,7 @@ from .common import module, top_func, TranslationError, HEADER
 
 OUTPUTS = ['MatchGen.v']
 FUNCS = ['_outer_distance_mod_n', '_fast_hit_windows', 'match_events', '_bipartite_match']
-BUILTINS = {'enumerate', 'zip', 'dict', 'list', 'sorted'}
+BUILTINS = {'enumerate', 'zip', 'dict', 'list', 'sorted', 'range', 'int', 'len'}
 LAZY = {'enumerate', 'zip'}
 METHODS = {'append', 'extend', 'setdefault', 'items'}
 CMP = {ast.Eq: 'CEq', ast.NotEq: 'CNe', ast.Lt: 'CLt', ast.LtE: 'CLe', ast.Gt: 'CGt', ast.GtE: 'CGe', ast.Is: 'CIs',
